@@ -11,6 +11,7 @@ require (
 	github.com/jackalLabs/canine-chain/v4 v4.0.0
 	github.com/tendermint/tendermint v0.34.27
 	github.com/tendermint/tm-db v0.6.7
+	github.com/wealdtech/go-merkletree/v2 v2.5.1-0.20231106114422-6769f4468d71
 	pgregory.net/rapid v1.3.0
 )
 
@@ -109,7 +110,6 @@ require (
 	github.com/syndtr/goleveldb v1.0.1-0.20210819022825-2ae1ddf74ef7 // indirect
 	github.com/tendermint/go-amino v0.16.0 // indirect
 	github.com/tidwall/btree v1.5.0 // indirect
-	github.com/wealdtech/go-merkletree/v2 v2.5.1-0.20231106114422-6769f4468d71 // indirect
 	golang.org/x/crypto v0.8.0 // indirect
 	golang.org/x/exp v0.0.0-20230321023759-10a507213a29 // indirect
 	golang.org/x/net v0.9.0 // indirect
